@@ -1,6 +1,7 @@
 package main
 
 import (
+	"runtime/pprof"
 	"fmt"
 	"os"
 	"sort"
@@ -14,11 +15,19 @@ func main() {
 		fmt.Fprintln(os.Stderr, "usage: sonicvc <census|dump|check> ...")
 		os.Exit(2)
 	}
+	if pf := os.Getenv("SONICVC_PROF"); pf != "" {
+		f, _ := os.Create(pf)
+		pprof.StartCPUProfile(f)
+	}
 	switch os.Args[1] {
 	case "check":
-		os.Exit(cmdCheck(os.Args[2:]))
+		rc := cmdCheck(os.Args[2:])
+		pprof.StopCPUProfile()
+		os.Exit(rc)
 	case "verify":
-		os.Exit(cmdVerify(os.Args[2:]))
+		rc := cmdVerify(os.Args[2:])
+		pprof.StopCPUProfile()
+		os.Exit(rc)
 	case "census":
 		p, err := LoadProgram("/repo")
 		if err != nil {
